@@ -50,6 +50,8 @@ class C18(Prop):
         "pathlib parsing/normalisation (PurePosixPath.parts, trailing slash, str vs Path) is a library contract: the model works on the parts",
         "that each of the 8 collection adapters passes audio_dir to its recording adapter is a correspondence fact (all 8 are run), not a theorem",
         "lexical prefix only ('..' components are not generated)",
+        "harness/aoef_extract.audio_dir_problems: static check that save/load, to_aeof/to_soundevent, the four base collection "
+        "adapters and RecordingAdapter pass the directory on unchanged and use relative_to / '/' under `is not None`",
     ]
 
     def setup(self, tier):
@@ -57,6 +59,14 @@ class C18(Prop):
         shutil.rmtree(self.dir, ignore_errors=True)
         self.dir.mkdir(parents=True, exist_ok=True)
         self._n = 0
+        # static, fail-closed reading of how the directory travels from save/load to the recording adapter
+        from .. import aoef_extract as E
+        from ..core import REPO_SRC
+
+        try:
+            self.static = E.audio_dir_problems(REPO_SRC)
+        except Exception as e:
+            self.static = [f"translator cannot read the adapters: {type(e).__name__}: {e}"]
 
     def teardown(self):
         shutil.rmtree(self.dir, ignore_errors=True)
@@ -140,6 +150,8 @@ class C18(Prop):
         return [I(c) for c in pathlib.PurePosixPath(s).parts]
 
     def agree(self, case, o):
+        if self.static:
+            return "false"  # the code is no longer known to be of the modelled shape: correspondence broken, search decides
         I = {"/": 0}
         intern = lambda c: I.setdefault(c, len(I))
         pl = lambda s: "[" + "; ".join(str(x) for x in self._parts(intern, s)) + "]"
